@@ -17,7 +17,8 @@ import numpy as np
 
 from .. import universe as U
 from ..core import guarded, MachineryError
-from ..tags_common import common_scale, conn_tables, mesh_am, mesh_checksums, points_enc, quiet, values_enc_pair
+from ..tags_common import (common_scale, conn_tables, crc, mesh_am, mesh_checksums, points_enc, quiet,
+                           values_enc_pair)
 
 RULE = ('scenario = one mesh (class, order, coordinates, cell list) with one set of named sub-domains and named '
         'boundaries (boundary and interior facets, orientation flags) and user data, exported through several '
@@ -117,49 +118,132 @@ def _ud_lists(pd, cd, pd2, cd2):
     return pre, post
 
 
+def _own(d):
+    """the user's own entries of a data dictionary: not the mesh's encoded tags, not meshio's gmsh bookkeeping."""
+    return sorted(k for k in (d or {}) if not (k.startswith('skfem:') or k.startswith('gmsh:')))
+
+
+def _ud_crc(pd, cd, pkeys, ckeys):
+    """checksums of the user's own arrays as they sit in the dictionaries handed to the export."""
+    out = []
+    for k in pkeys:
+        out.append(crc(pd[k]) if k in pd else crc(None))
+    for k in ckeys:
+        v = cd.get(k)
+        out.append(crc(*[np.asarray(a) for a in v]) if isinstance(v, (list, tuple)) else crc(v))
+    return out
+
+
+def _retag(m2, hist):
+    """step 3 of a history: the loaded mesh gets existing names RE-DEFINED (other entity sets, other flags) through
+    with_boundaries / with_subdomains, possibly a further name; no name is dropped."""
+    from skfem.generic_utils import OrientedBoundary
+    bnd = {}
+    for name, b in hist.get('bnd', {}).items():
+        f = np.array(b['f'], dtype=np.int64)
+        bnd[name] = f if b.get('ori') is None else OrientedBoundary(f, np.array(b['ori'], dtype=np.int64))
+    sub = {name: np.array(ix, dtype=np.int64) for name, ix in hist.get('sub', {}).items()}
+    m3 = m2
+    if bnd:
+        m3 = m3.with_boundaries(bnd)
+    if sub:
+        m3 = m3.with_subdomains(sub)
+    return m3
+
+
 EMPTY_AM = {'kind': '', 'cls': '', 'p': [], 't': [], 'tt': [], 'nv': 0, 'nf': 0, 'hass': 0, 'hasb': 0, 'sub': [],
             'bnd': []}
 
 
+def _new_event(fmt, step):
+    return {'a': 'RT', 'fmt': fmt, 'codec': CODEC[fmt], 'err': '', 'step': step,
+            'tags': {'fmt': fmt, 'codec': CODEC[fmt], 'step': step},
+            'pre': EMPTY_AM, 'post': EMPTY_AM, 'conn': {'ok': 0, 't2f': [], 'f2t': []},
+            'ud_pre': [], 'ud_post': [], 'ck_pre': [], 'ck_post': [], 'udck_pre': [], 'udck_post': [], 'enc': ''}
+
+
+def _cycle(ev, m, fmt, pd, cd, base):
+    """one export + load of the mesh m with the user data (pd, cd) through the real code, recorded in ev.
+    Returns (loaded mesh, point data read back, cell data read back) or None after an error."""
+    pkeys, ckeys = _own(pd), _own(cd)
+    # reference copies of the user's own arrays (what was handed over), independent of the dictionaries
+    pd_ref = {k: np.array(pd[k], copy=True) for k in pkeys}
+    cd_ref = {k: [np.array(np.asarray(cd[k][0]), copy=True)] for k in ckeys}
+
+    def call():
+        with quiet():
+            ck0 = mesh_checksums(m)
+            ud0 = _ud_crc(pd, cd, pkeys, ckeys)
+            conn = conn_tables(m)
+            p0 = m.doflocs.copy()
+            pre = mesh_am(m, None, with_nodes=True)
+            m2, pd2, cd2 = _roundtrip(m, fmt, pd, cd, base)
+            ck1 = mesh_checksums(m)
+            ud1 = _ud_crc(pd, cd, pkeys, ckeys)
+            post = mesh_am(m2, None, with_nodes=True)
+            return ck0, ud0, conn, p0, pre, m2, pd2, cd2, ck1, ud1, post
+    res, err = guarded(call, 60)
+    if err:
+        ev['err'] = err
+        return None
+    ck0, ud0, conn, p0, pre, m2, pd2, cd2, ck1, ud1, post = res
+    scale = common_scale([p0, m2.doflocs], maxabs=2**20) if p0.shape[0] == m2.doflocs.shape[0] else None
+    pre['p'], post['p'] = points_enc([p0, m2.doflocs], scale)
+    ev['enc'] = 'int*%d' % scale if scale else 'bits'
+    ev['pre'], ev['post'], ev['conn'] = pre, post, conn
+    ev['ck_pre'], ev['ck_post'] = ck0, ck1
+    ev['udck_pre'], ev['udck_post'] = ud0, ud1
+    ev['ud_pre'], ev['ud_post'] = _ud_lists(pd_ref, cd_ref, pd2, cd2)
+    return m2, pd2, cd2
+
+
 def execute(rec):
-    """Run the real code on a recipe; one event per format."""
+    """Run the real code on a recipe; one event per format - and, for a recipe with a 'history', a second one per
+    cell-data format: the loaded mesh is re-tagged (same names, other entity sets / flags) and saved again together
+    with ALL the data that came with the first file (the old 'skfem:*' arrays included), then loaded."""
     events = []
     base = os.path.join(_scratch[0] or '/var/tmp', 'c17_%d' % os.getpid())
     with quiet():
         m, err0 = guarded(lambda: build(rec), 30)
     for fmt in rec['fmts']:
-        ev = {'a': 'RT', 'fmt': fmt, 'codec': CODEC[fmt], 'err': '', 'tags': {'fmt': fmt, 'codec': CODEC[fmt]},
-              'pre': EMPTY_AM, 'post': EMPTY_AM, 'conn': {'ok': 0, 't2f': [], 'f2t': []},
-              'ud_pre': [], 'ud_post': [], 'ck_pre': [], 'ck_post': [], 'enc': ''}
+        ev = _new_event(fmt, 1)
         events.append(ev)
+        hist = rec.get('history') if CODEC[fmt] == 'celldata' else None
+        ev2 = None
+        if hist:
+            ev2 = _new_event(fmt, 2)
+            events.append(ev2)
         if err0:
             ev['err'] = 'build:' + err0
+            if ev2:
+                ev2['err'] = 'previous:build'
             continue
         usable = CODEC[fmt] == 'celldata'
         pd, cd = _userdata(rec, m) if usable else ({}, {})
-
-        def call():
-            with quiet():
-                ck0 = mesh_checksums(m)
-                conn = conn_tables(m)
-                p0 = m.doflocs.copy()
-                pre = mesh_am(m, None, with_nodes=True)
-                m2, pd2, cd2 = _roundtrip(m, fmt, pd, cd, base)
-                ck1 = mesh_checksums(m)
-                post = mesh_am(m2, None, with_nodes=True)
-                return ck0, conn, p0, pre, m2, pd2, cd2, ck1, post
-        res, err = guarded(call, 60)
-        if err:
-            ev['err'] = err
+        res = _cycle(ev, m, fmt, pd, cd, base)
+        if not ev2:
             continue
-        ck0, conn, p0, pre, m2, pd2, cd2, ck1, post = res
-        scale = common_scale([p0, m2.doflocs], maxabs=2**20) if p0.shape[0] == m2.doflocs.shape[0] else None
-        pre['p'], post['p'] = points_enc([p0, m2.doflocs], scale)
-        ev['enc'] = 'int*%d' % scale if scale else 'bits'
-        ev['pre'], ev['post'], ev['conn'] = pre, post, conn
-        ev['ck_pre'], ev['ck_post'] = ck0, ck1
-        pdo, cdo = _userdata(rec, m) if usable else ({}, {})
-        ev['ud_pre'], ev['ud_post'] = _ud_lists(pdo, cdo, pd2, cd2)
+        if res is None:
+            ev2['err'] = 'previous:' + ev['err']
+            continue
+        m2, pd2, cd2 = res
+
+        def prepare():
+            with quiet():
+                m3 = _retag(m2, hist)
+                # everything the first file gave back is passed through (meshio's own gmsh bookkeeping excepted:
+                # its writers rebuild it), plus one more user array
+                pd3 = {k: v for k, v in (pd2 or {}).items() if not k.startswith('gmsh:')}
+                cd3 = {k: v for k, v in (cd2 or {}).items() if not k.startswith('gmsh:')}
+                for k, v in hist.get('extra_cd', {}).items():
+                    cd3[k] = [np.array(v['v'], dtype=v['dtype']).reshape(v['shape'])]
+                return m3, pd3, cd3
+        prep, err = guarded(prepare, 30)
+        if err:
+            ev2['err'] = 'retag:' + err
+            continue
+        m3, pd3, cd3 = prep
+        _cycle(ev2, m3, fmt, pd3, cd3, base + '_b')
     return events
 
 
@@ -275,7 +359,43 @@ def base_meshes(tier, rng):
     return out + var
 
 
-def make_recipe(kind, p, t, fam, rng, order, fmts, floats=False, curved=False, userdata=True, notags=False):
+def redefine_tags(m, rec, rng, dyadic):
+    """a history for the recipe: every existing name gets another entity set (and other flags); sometimes a further
+    name and a further user array appear.  No name is dropped."""
+    nf, nt = m.facets.shape[1], m.t.shape[1]
+    interior = set(int(f) for f in _interior(m))
+    bnd, sub = {}, {}
+    names = list(rec.get('bnd', {})) + (['added_later'] if rng.random() < 0.3 else [])
+    for name in names:
+        old = rec.get('bnd', {}).get(name, {'f': [], 'ori': None})
+        for _ in range(5):
+            k = int(rng.integers(1, min(nf, 7) + 1))
+            f = [int(x) for x in rng.choice(nf, size=k, replace=False)]
+            if rng.random() < 0.6:
+                f = sorted(f)
+            ori = [int(rng.integers(2)) if x in interior else 0 for x in f] if rng.random() < 0.7 else None
+            if sorted(f) != sorted(old['f']) or (ori or []) != (old.get('ori') or []):
+                break
+        bnd[name] = {'f': f, 'ori': ori}
+    for name in list(rec.get('sub', {})) + (['zone_later'] if rng.random() < 0.3 else []):
+        old = rec.get('sub', {}).get(name, [])
+        for _ in range(5):
+            ix = sorted(int(x) for x in rng.choice(nt, size=int(rng.integers(0, nt + 1)), replace=False))
+            if ix != sorted(old):
+                break
+        sub[name] = ix
+    hist = {'bnd': bnd, 'sub': sub, 'extra_cd': {}}
+    if rng.random() < 0.6:
+        if rng.random() < 0.5:
+            hist['extra_cd']['later'] = {'v': rng.integers(-9, 99, size=nt).tolist(), 'dtype': 'int64', 'shape': [nt]}
+        else:
+            v = (rng.integers(-64, 65, size=nt) / 8.0) if dyadic else rng.standard_normal(nt)
+            hist['extra_cd']['later'] = {'v': v.tolist(), 'dtype': 'float64', 'shape': [nt]}
+    return hist
+
+
+def make_recipe(kind, p, t, fam, rng, order, fmts, floats=False, curved=False, userdata=True, notags=False,
+                history=False):
     import skfem
     rec = {'driver': 'rt', 'cls': FIRST[kind], 'order': order, 'family': fam,
            'p': np.asarray(p, dtype=float).tolist(), 't': np.asarray(t).astype(int).tolist(), 'fmts': list(fmts)}
@@ -298,6 +418,8 @@ def make_recipe(kind, p, t, fam, rng, order, fmts, floats=False, curved=False, u
         rec['bnd'], rec['sub'] = bnd, sub
     if userdata:
         rec['pd'], rec['cd'] = random_userdata(nnodes, m1.t.shape[1], rng, dyadic=not floats or 'vtu-ascii' in fmts)
+    if history and not notags:
+        rec['history'] = redefine_tags(m1, rec, rng, dyadic=not floats or 'vtu-ascii' in fmts)
     return rec
 
 
@@ -312,17 +434,18 @@ def generate(tier, seed):
             fm1 = list(ALL_FMTS)
             if thorough and (n + rep) % 3 == 0:
                 fm1 += ['vtk-ascii', 'vtu-ascii']
-            recs.append(make_recipe(kind, p, t, fam, rng, 1, fm1))
+            recs.append(make_recipe(kind, p, t, fam, rng, 1, fm1, history=(n + rep) % 2 == 0))
             # second order (dict / JSON are stated for first-order meshes only); the bigger ones are thinned in quick
             if t.shape[1] <= (8 if kind == 'hex' else 16) and (thorough or (n + rep) % 2 == 0):
                 fm2 = ['mem', 'gmsh22', 'gmsh41', 'vtk', 'vtu', 'npz']
                 if not thorough:
                     fm2 = ['mem', 'npz'] + [fm2[1 + (n + j) % 4] for j in range(2)]
-                recs.append(make_recipe(kind, p, t, fam + '-o2', rng, 2, fm2, curved=(n + rep) % 2 == 0))
+                recs.append(make_recipe(kind, p, t, fam + '-o2', rng, 2, fm2, curved=(n + rep) % 2 == 0,
+                                        history=(n + rep) % 4 == 0))
             # arbitrary float coordinates and float user data: bitwise comparison
             if (n + rep) % (2 if thorough else 4) == 0:
                 recs.append(make_recipe(kind, p, t, fam + '-float', rng, 1 + (n // 4) % 2 if t.shape[1] <= 8 else 1,
-                                        ['mem', 'gmsh22', 'gmsh41', 'vtk', 'vtu', 'npz'], floats=True))
+                                        ['mem', 'gmsh22', 'gmsh41', 'vtk', 'vtu', 'npz'], floats=True, history=True))
     # meshes without any tag (None must not turn into an error), empty tag arrays
     for (kind, p, t, fam) in meshes[::5]:
         recs.append(make_recipe(kind, p, t, fam + '-untagged', rng, 1, ALL_FMTS, notags=True))
@@ -378,6 +501,14 @@ def _nontrivial(rec):
     return False
 
 
+def _machinery_guard(ctx):
+    """an event TraceC17 cannot read is a defect of the harness (exit 2), never a verdict on the library."""
+    for f in ctx.failures:
+        if f['clause'] == 'HarnessInputWellFormed':
+            raise MachineryError('harness produced a malformed C17 event: %s position %s'
+                                 % (f['scenario']['id'], f['pos']))
+
+
 def run(ctx):
     _scratch[0] = ctx.scratch
     recs = model(ctx)
@@ -385,6 +516,8 @@ def run(ctx):
     recs += generate(ctx.tier, ctx.seed)
     scs = [scenario(f'C17-{k}', r) for k, r in enumerate(recs)]
     ctx.validate('TraceC17', scs, jvms=8)
+    _machinery_guard(ctx)
+    ctx.notes['history_events'] = sum(1 for s in scs for e in s['events'] if e.get('step') == 2)
     keys = {json.dumps([r['cls'], r.get('order', 1), r['p'], r['t'], r.get('bnd'), r.get('bndv'), r.get('sub')],
                        sort_keys=True) for r in recs if _nontrivial(r)}
     ctx.notes['distinct_nontrivial'] = len(keys)
@@ -414,4 +547,5 @@ def replay(ctx, doc):
         return ctx.finish(rule=RULE)
     sc2 = scenario(sc['id'], sc['recipe'])
     ctx.validate('TraceC17', [sc2], jvms=8)
+    _machinery_guard(ctx)
     return ctx.finish(rule=RULE)
